@@ -152,9 +152,14 @@ operations.  (The code first removes repeated images, `symmetrise(unique=True)`;
 def angleWithSym (act : M3 → X → X) (dot : X → X → α) (L : List M3) (self other : X) : Option α :=
   angleOver dot self (images act L other)
 
-/-- what the code returns for ONE `self` vector when `other` holds several vectors: `other.symmetrise(unique=True)` is the
-concatenation of all orbits and the minimum runs over all of it (not only over the orbit of the vector at the same
-position) -/
+/-- `self.angle_with(other, use_symmetry=True)` for several vectors at matching positions (after fix 820316b in /repo:
+the equivalents of each other vector sit on their own axis and the minimum runs over that axis only) -/
+def angleWithSymEach (act : M3 → X → X) (dot : X → X → α) (L : List M3) (selfs others : List X) : List (Option α) :=
+  List.zipWith (angleWithSym act dot L) selfs others
+
+/-- what the code returned BEFORE fix 820316b for ONE `self` vector when `other` held several vectors:
+`other.symmetrise(unique=True)` is the concatenation of all orbits and the minimum ran over all of it (not only over the
+orbit of the vector at the same position).  Kept with the theorems that show how it deviates. -/
 def angleWithSymAll (act : M3 → X → X) (dot : X → X → α) (L : List M3) (self : X) (others : List X) : Option α :=
   angleOver dot self (others.flatMap (images act L))
 
